@@ -1,7 +1,7 @@
 package main
 
 func init() {
-	for _, id := range []string{"C04", "C07", "C20"} {
+	for _, id := range []string{"C04", "C20"} {
 		notApplicable[id] = "not yet claimed: contracts for this property are still being written (see DESIGN.md); no check is registered"
 	}
 	notApplicable["C12"] = "command/response matching lives in goroutine, channel and timer interplay (onActiveEvent/onActiveRespondEvent/write); no sequential function contract within the verifier's subset carries the claim"
@@ -244,6 +244,28 @@ func init() {
 			"everything about schedules: that operations are applied one at a time (sessionManager.run's receive loop), blocking sends, the interleavings of connection goroutines and callers, join/leave callbacks being announced once (connection.reader/stop)",
 			"the closures' callers (join/leave/write create the channels and wait on them) - the preconditions 'reply channel open' and 'sessions in the map are non-nil with open channels' are assumptions about them",
 			"keyFunc (user supplied)",
+		},
+	})
+}
+
+func init() {
+	var roots []string
+	for _, t := range []string{"P0x8001", "P0x8801", "P0x9102", "P0x9105", "P0x9207", "T0x0001", "T0x0800", "T0x1003", "T0x1206"} {
+		roots = append(roots, "model.rt"+t, "model.tr"+t)
+	}
+	roots = append(roots, "model.rtP0x8100", "model.rtT0x1211", "model.trT0x0102",
+		"model.(*P0x8003).Encode", "model.(*P0x9212).Encode", "model.(*P0x9212).Parse", "model.(*P0x8100).Encode",
+		"utils.BCD2Time", "utils.Time2BCD", "utils.Bcd2Dec", "utils.bcdConvert", "utils.String2FillingBytes")
+	registerProp(&PropDef{
+		ID:    "C07",
+		Title: "Message body round trip for every message type",
+		Roots: roots,
+		Decided: "for 0x8001, 0x8801, 0x9102, 0x9105, 0x9207, 0x0001, 0x0800, 0x1003, 0x1206: Parse(Encode(x)) succeeds and yields x field by field for every value x, and Encode(Parse(b)) == b for every body b that Parse accepts " +
+			"(harness functions that call the real Encode and Parse; both are inlined, nothing is modelled); for 0x8100 and 0x1211 the first direction (name length consistent with the name), for 0x0102 the second; " +
+			"byte layouts of the 0x8003 and 0x9212 bodies and the 0x9212 parser reading the same positions; BCD time digits, BCD phone rendering and fixed-width padding helpers as far as their contracts state them",
+		Undecided: []string{
+			"the remaining two-way types: with length-prefixed or GBK text, lists and reflection (0x8103, 0x0104 terminal parameters, 0x0200/0x0704 with additional information, 0x9208, 0x1210, 0x9101, 0x9201, 0x9205, 0x9206, 0x1005, 0x1205, 0x0801, 0x0805, 0x8800, 0x0100) - their round-trip queries need string/byte copies through several heap versions and did not discharge within the quick budget, or hit arrays too large for the flattening encoding",
+			"GBK/UTF-8 conversion (uninterpreted in the model)",
 		},
 	})
 }
